@@ -171,9 +171,155 @@ def check_case(case, out, versions):
                     "case": case, "version": ver, "teal": clear, "features": {"why": "clear"}})
 
 
+HIST_OPS = [("sig", None), ("sig", "zz"), ("add", "A", None), ("add", "A", "alias"), ("add", "B", None), ("add", "B", "other")]
+HIST_NAMES = ["ping", "alias", "other", "zz"]
+
+
+def check_history(case, out, versions):
+    """family (e): ONE handler object (python name 'ping') whose signature is queried and which is registered,
+    under its own or an overriding name, in two routers, in every order.  Model: each router holds the set of
+    names it was registered under (registering a name twice in one router must be refused); each router must
+    dispatch exactly on the selectors of its own names."""
+    cnt, oc_ = out["counters"], out["outcomes"]
+    for ver in versions:
+        h = make_method("ping", "Mping")
+        routers = {"A": pt.Router("ra"), "B": pt.Router("rb")}
+        model = {"A": set(), "B": set()}
+        dead = False
+        for op in case["history"]:
+            try:
+                if op[0] == "sig":
+                    got = h.method_signature(op[1]) if op[1] else h.method_signature()
+                    want = "%s()void" % (op[1] or "ping")
+                    if got != want:
+                        out["violations"].append({
+                            "driver": "history", "size": len(case["history"]),
+                            "title": "v%d after %r: method_signature(%r) = %r, expected %r" % (ver, case["history"], op[1], got, want),
+                            "case": case, "version": ver, "features": {"why": "signature"}})
+                        dead = True
+                        break
+                else:
+                    name = op[2] or "ping"
+                    dup = name in model[op[1]]
+                    try:
+                        routers[op[1]].add_method_handler(h, overriding_name=op[2], method_config=pt.MethodConfig(no_op=pt.CallConfig.CALL))
+                        refused = False
+                    except pt.TealInputError:
+                        refused = True
+                    if refused != dup:
+                        out["violations"].append({
+                            "driver": "history", "size": len(case["history"]),
+                            "title": "v%d history %r: registering %r in router %s was %s" % (
+                                ver, case["history"], name, op[1], "refused although the name is new there" if refused else
+                                "accepted although that name is already registered there"),
+                            "case": case, "version": ver, "features": {"why": "registration"}})
+                        dead = True
+                        break
+                    if not refused:
+                        model[op[1]].add(name)
+            except Exception as e:
+                out["violations"].append({"driver": "history", "size": len(case["history"]),
+                                          "title": "v%d history %r: %r crashed: %r" % (ver, case["history"], op, e),
+                                          "case": case, "version": ver, "features": {"why": "crash"}})
+                dead = True
+                break
+        if dead:
+            continue
+        for rn, router in routers.items():
+            if not model[rn]:
+                continue
+            try:
+                approval, _clear, _contract = router.compile_program(version=ver)
+            except Exception as e:
+                out["violations"].append({"driver": "history", "size": len(case["history"]),
+                                          "title": "v%d history %r: router %s does not compile: %r" % (ver, case["history"], rn, e),
+                                          "case": case, "version": ver, "features": {"why": "rejected"}})
+                continue
+            pa = asm.assemble(approval)
+            for nm in HIST_NAMES:
+                sel = selector(nm + "()void")
+                txn = interp.default_txn(ApplicationArgs=[sel], OnCompletion=0, ApplicationID=7)
+                res = interp.run(pa, interp.Ctx(mode="A", group=[txn]), fuel=20000)
+                cnt["traces_validated"] = cnt.get("traces_validated", 0) + 1
+                if nm in model[rn]:
+                    ok = res.verdict == "APPROVE" and res.logs == [b"Mping"]
+                    oc_["dispatched"] = oc_.get("dispatched", 0) + 1
+                else:
+                    ok = res.verdict in ("REJECT", "FAIL")
+                    oc_["rejected"] = oc_.get("rejected", 0) + 1
+                if not ok:
+                    out["violations"].append({
+                        "driver": "history", "size": len(case["history"]),
+                        "title": "v%d history %r: router %s registered %r; call with the selector of %r gave %s logs=%r" % (
+                            ver, case["history"], rn, sorted(model[rn]), nm + "()void", res.verdict, res.logs),
+                        "case": case, "version": ver, "teal": approval,
+                        "features": {"why": "dispatch", "expected_reject": nm not in model[rn]}})
+
+
+_COLLISION = None
+
+
+def colliding_names():
+    """two different method names c<i>, c<j> whose signatures c<i>()void / c<j>()void have the same 4-byte
+    selector (first collision of the sequence c0, c1, ...: about 10^5 hashes)"""
+    global _COLLISION
+    if _COLLISION is None:
+        seen = {}
+        i = 0
+        while True:
+            nm = "c%d" % i
+            s = selector(nm + "()void")
+            if s in seen:
+                _COLLISION = (seen[s], nm)
+                break
+            seen[s] = nm
+            i += 1
+    return _COLLISION
+
+
+def check_collision(case, out, versions):
+    """family (f): two methods that cannot be told apart by selector (same signature, or different signatures
+    with colliding selectors) - the second registration must be refused; if it is accepted the second handler
+    can never run although the contract lists it"""
+    cnt, oc_ = out["counters"], out["outcomes"]
+    a, b = colliding_names()
+    first, second = {"collide": (a, b), "collide-rev": (b, a), "same": (a, a)}[case["collision"]]
+    for ver in versions:
+        for via in ("handler", "decorator"):
+            router = pt.Router("r")
+            cnt["traces_validated"] = cnt.get("traces_validated", 0) + 1
+            try:
+                for nm in (first, second):
+                    if via == "decorator":
+                        router.method(no_op=pt.CallConfig.CALL)(plain_fn(nm, "M" + nm))
+                    else:
+                        router.add_method_handler(make_method(nm, "M" + nm), method_config=pt.MethodConfig(no_op=pt.CallConfig.CALL))
+            except pt.TealInputError:
+                oc_["collision_refused"] = oc_.get("collision_refused", 0) + 1
+                continue
+            except Exception as e:
+                out["violations"].append({"driver": "collision", "size": 2, "title": "registration crashed: %r" % (e,),
+                                          "case": case, "version": ver, "features": {"why": "crash"}})
+                continue
+            out["violations"].append({
+                "driver": "collision", "size": 2,
+                "title": "v%d (%s): methods %s()void and %s()void have the same selector %s, yet both were registered: the second can never run" % (
+                    ver, via, first, second, selector(first + "()void").hex()),
+                "case": case, "version": ver, "features": {"why": "selector collision accepted"}})
+
+
 def _worker(items, base):
     out = {"counters": {}, "outcomes": {}, "violations": [], "samples": []}
     for case in items:
+        if "collision" in case:
+            check_collision(case, out, _VERSIONS)
+            out["counters"]["states"] = out["counters"].get("states", 0) + 1
+            continue
+        if "history" in case:
+            check_history(case, out, _VERSIONS)
+            out["counters"]["states"] = out["counters"].get("states", 0) + 1
+            out["counters"]["transitions"] = out["counters"].get("transitions", 0) + len(case["history"])
+            continue
         check_case(case, out, _VERSIONS)
         out["counters"]["states"] = out["counters"].get("states", 0) + 1
         out["counters"]["transitions"] = out["counters"].get("transitions", 0) + len(list(calls_for(case)))
@@ -215,6 +361,15 @@ def router_cases(tier):
         cases.append({"methods": [], "bare": {}, "clear": clear})
         cases.append({"methods": [], "bare": {"no_op": ALL}, "clear": clear})
         cases.append({"methods": [{"name": "m0", "cfg": {"no_op": ALL}}], "bare": {}, "clear": clear})
+    # (e) every history of <= 3 (thorough: 4) operations on ONE handler object shared by two routers
+    for n in range(1, 4 if tier == "quick" else 5):
+        for hist in itertools.product(range(len(HIST_OPS)), repeat=n):
+            ops = [list(HIST_OPS[i]) for i in hist]
+            if any(o[0] == "add" for o in ops):
+                cases.append({"history": ops})
+    # (f) indistinguishable methods
+    for k in ("collide", "collide-rev", "same"):
+        cases.append({"collision": k})
     return cases
 
 
@@ -243,7 +398,12 @@ def run(tier):
 
 def replay(case):
     out = {"counters": {}, "outcomes": {}, "violations": [], "samples": []}
-    check_case(case["case"], out, (case["version"],))
+    if "collision" in case["case"]:
+        check_collision(case["case"], out, (case["version"],))
+    elif "history" in case["case"]:
+        check_history(case["case"], out, (case["version"],))
+    else:
+        check_case(case["case"], out, (case["version"],))
     for v in out["violations"][:5]:
         print("still violates:", v["title"][:300])
     return bool(out["violations"])
